@@ -148,7 +148,8 @@ def rule_refresh_round(ctx, res):
     why = ''
     for pl in pls:
         names = [x[0] for x in pl]
-        if names != ['src', 'filter', 'filter', 'take', 'map', 'collect']:
+        nf = names.count('filter')
+        if not (nf >= 1 and names == ['src'] + ['filter'] * nf + ['take', 'map', 'collect']):
             ok = False
             why = 'pipeline shape %s' % names
         else:
@@ -157,29 +158,39 @@ def rule_refresh_round(ctx, res):
             if not (tgt and tgt[0] == 'call' and tgt[1] == 'info_hash::InfoHash::flip_bit' and find_calls(tgt, 'RoutingTable::node_id')):
                 ok = False
                 why = 'source is not closest_nodes(own_id.flip_bit(cursor))'
-            if not (term_int(pl[3][1]) == 4 and pl[3][1][2] == 'action::refresh::REFRESH_CONCURRENCY'):
+            tk = pl[1 + nf][1]
+            if not (term_int(tk) == 4 and tk[2] == 'action::refresh::REFRESH_CONCURRENCY'):
                 ok = False
                 why = 'take bound is not REFRESH_CONCURRENCY'
-            kinds = []
-            for f in (pl[1][1], pl[2][1]):
-                fb, cps = closure_bool_ret(ctx, res, f)
-                kind = None
-                try:
-                    tab = lib.bool_table(cps, lambda lit, c: (('S', status_atom(ctx, lit, lambda call: True)) if status_atom(ctx, lit, lambda call: True) is not None else (_ for _ in ()).throw(Lost('x'))))
-                    bad, n = tab.compare({'S': list(STATUS)}, lambda v: v['S'] == 'Questionable')
-                    if not bad:
-                        kind = 'questionable'
-                except Lost:
-                    pass
-                if kind is None and len(cps) == 1:
-                    r = cps[0].ret
-                    inner = r[2] if (r[0] == 'un' and r[1] == 'Not') else (r[2][0] if r[0] == 'call' and r[1].endswith('Not>::not') else None)
-                    if inner is not None and strip_transparent(inner)[0] == 'call' and strip_transparent(inner)[1] == 'node::Node::recently_requested_from':
-                        kind = 'not-recently-asked'
-                kinds.append(kind)
-            if sorted(str(x) for x in kinds) != ['not-recently-asked', 'questionable']:
+            # the filters, however they are split or merged, jointly keep exactly: questionable AND NOT asked in the last 30 s
+
+            def classify_f(lit, c):
+                sa = status_atom(ctx, lit, lambda call: True)
+                if sa is not None:
+                    return ('S', sa)
+                rel, a, b2, truth = lit
+                if rel == 'bool' and isinstance(a, tuple) and a[0] == 'call' and a[1] == 'node::Node::recently_requested_from' and truth is not None:
+                    return ('R', truth)
+                raise Lost('refresh candidate filter: unrecognised condition %s %s' % (rel, fmt(a)))
+            tabs = []
+            try:
+                for x in pl[1:1 + nf]:
+                    fb, cps = closure_bool_ret(ctx, res, x[1])
+                    tabs.append(lib.bool_table(cps, classify_f))
+                for S in STATUS:
+                    for R in BOOL:
+                        outs = []
+                        for t in tabs:
+                            got = t.lookup({'S': S, 'R': R})
+                            if not got or len(set(got)) != 1:
+                                raise Lost('filter undecided for %s/%s' % (S, R))
+                            outs.append(got[0])
+                        if all(outs) != (S == 'Questionable' and not R):
+                            ok = False
+                            why = 'status %s, recently asked %s -> kept %s' % (S, R, all(outs))
+            except Lost as e:
                 ok = False
-                why = 'filters are %s' % kinds
+                why = str(e)
     res.check(ok, 'TABLE', b.path, 'a round contacts closest_nodes(own id with the cursor bit flipped) that are questionable and not asked in the last 30 s, at most REFRESH_CONCURRENCY', detail=why, key='candidates')
     # each loop iteration: find_node to node.addr with a fresh id, then local_request on the table entry, also when the send failed
     okl = True
